@@ -14,7 +14,7 @@ Two layers:
 
 Nothing here uses Lean's `Float`.  Only core is imported.
 -/
-namespace Dds.F32
+namespace Dds.CF32
 
 /-- Call-by-value for the kernel: `match` evaluates `a` to a literal before `f` uses it (several
 times).  Semantically the identity application (`force_eq`); it only keeps `decide +kernel` from
@@ -170,4 +170,4 @@ def toNatSat (x : Nat) (max : Nat) : Nat :=
 def one : Nat := 0x3F800000
 def half : Nat := 0x3F000000
 
-end Dds.F32
+end Dds.CF32
